@@ -1,62 +1,17 @@
 /-
-  C01 — what the property demands of one constructor call, stated declaratively:
-  signature and annotations from the field list; TypeError exactly for malformed calls; otherwise every
-  participating field holds converter(argument | default | fresh factory value), the others are unset.
+  C01 — the check's entry point.  Ordinary cases (one class, one call; `Spec/C01Base.lean`) go through
+  `runCheck check` unchanged; cases with `"kind": "script"` (T3, thorough tier; `Spec/C01Script.lean`) compare
+  the parsed source of the generated initializer with the model generator's script.
 -/
-import AttrsModel.Model.Init
+import AttrsModel.Spec.C01Base
+import AttrsModel.Spec.C01Script
 
 namespace Attrs.C01
-open Attrs.Init
+open Lean
 
-/-- the raw (pre-converter) value of a participating field: the argument, else the declared default,
-    else a fresh factory result (given the instance if the factory asked for it) -/
-def rawOf (attrs : List Attr) (c : Call) (a : Attr) : Val :=
-  let given := if a.init then passed (params attrs) c a.alias else none
-  match given, a.dflt with
-  | some v, _ => v
-  | none, .value => dfltVal a
-  | none, .factory ts => factoryVal a ts
-  | none, .none => "?"        -- mandatory parameter: excluded by `callOk`
-
-def expectedValue (attrs : List Attr) (c : Call) (a : Attr) : Option Val :=
-  if participates a then some (convApply a (rawOf attrs c a)) else none
-
-/-- K3: a frozen dict class believes a field is not slot-backed while some class along the MRO has a
-    slot of that name: the value is written to `__dict__` and the empty slot shadows it. -/
-def misplaced (r : RunIn) (a : Attr) : Bool :=
-  participates a && a.isSlot && tech r.cfg (r.belief a.name) a == .instDict
-
-def known (c : Case) : List String :=
-  if c.eff.attrs.any (misplaced c.eff) then ["K3"] else []
-
-def distinct (l : List String) : Bool := decide l.Nodup
-
-def wf (c : Case) : Bool :=
-  let r := c.eff
-  r.fault.isNone &&
-  distinct (r.attrs.map (·.name)) &&
-  r.attrs.all (·.name != Generated.hashCacheField) &&
-  distinct ((r.attrs.filter (·.init)).map (·.alias)) &&
-  distinct (c.call.kw.map (·.1)) &&
-  c.call.pos.all (· != NOTHING) && c.call.kw.all (·.2 != NOTHING) &&
-  -- a frozen class cannot have hooks (rejected at definition time, C15)
-  (!r.cfg.frozen || r.attrs.all (·.onSet == .unset))
-
-def spec (c : Case) (o : Obs) : Bool :=
-  let r := c.eff
-  o.sig == sigOf r.attrs &&
-  o.annotations == annotationsOf r.attrs &&
-  (if callOk (params r.attrs) c.call then
-     o.exc == none &&
-     o.values == r.attrs.map (fun a => (a.name, expectedValue r.attrs c.call a))
-   else o.exc == some .typeError)
-
-/-- C01 observes signature, annotations, exception kind and field values; the callback trace, `args` and
-    the hash cache belong to C02 / C04 and are blanked here. -/
-def model (c : Case) : Obs := { runInit c with trace := [], excArgs := none, cache := none }
-
-def check : Check Case Obs := { model := model, spec := spec, wf := wf, known := known }
-
-def handle := runCheck check
+def handle (case obs : Json) : Except String Reply :=
+  match case.getObjValAs? String "kind" with
+  | .ok "script" => Script.handle case obs
+  | _ => runCheck check case obs
 
 end Attrs.C01
